@@ -42,6 +42,12 @@ var c05Leavers = []struct {
 	{"ctl-ruleEngine-off", []string{"ctl:ruleEngine=Off"}, "pass", 4, ""},
 	{"ctl-auditEngine", []string{"ctl:auditEngine=On"}, "pass", 4, ""},
 	{"ctl-auditLogParts", []string{"ctl:auditLogParts=+E"}, "pass", 4, ""},
+	{"ctl-auditLogParts-remove", []string{"ctl:auditLogParts=-C"}, "pass", 4, ""},
+	{"ctl-auditLogParts-remove2", []string{"ctl:auditLogParts=-BH"}, "pass", 4, ""},
+	{"ctl-auditLogParts-set", []string{"ctl:auditLogParts=ABZ"}, "pass", 4, ""},
+	{"ctl-ruleRemoveByTag", []string{"ctl:ruleRemoveByTag=reader"}, "pass", 4, ""},
+	{"ctl-ruleRemoveTargetByTag", []string{"ctl:ruleRemoveTargetByTag=reader;ARGS_GET:x"}, "pass", 4, ""},
+	{"ctl-responseBodyLimit", []string{"ctl:responseBodyLimit=7"}, "pass", 3, ""},
 	{"ctl-requestBodyAccess", []string{"ctl:requestBodyAccess=Off"}, "pass", 1, ""},
 	{"ctl-requestBodyLimit", []string{"ctl:requestBodyLimit=5"}, "pass", 1, ""},
 	{"ctl-forceRequestBodyVariable", []string{"ctl:forceRequestBodyVariable=On"}, "pass", 1, ""},
@@ -100,6 +106,7 @@ func genC05(t *rapid.T) *C05Case {
 		"SecRequestBodyLimit 100", "SecRequestBodyInMemoryLimit 16", "SecResponseBodyLimit 60",
 		"SecRequestBodyLimitAction " + rapid.SampledFrom([]string{"ProcessPartial", "Reject"}).Draw(t, "limitaction"),
 		"SecAuditEngine " + rapid.SampledFrom([]string{"Off", "RelevantOnly", "On"}).Draw(t, "auditengine"),
+		"SecAuditLogParts " + rapid.SampledFrom([]string{"ABCFHZ", "ABCEFHIJKZ", "ABHZ"}).Draw(t, "auditparts"),
 		"SecAuditLogRelevantStatus ^[45]", "SecAuditLog " + tmpPlaceholder + "/c05-audit.log",
 		"SecUploadDir " + tmpPlaceholder}
 	// readers: rules that expose state to the outcome
@@ -115,7 +122,7 @@ func genC05(t *rapid.T) *C05Case {
 		{Var: "RESPONSE_BODY"}, {Var: "INBOUND_DATA_ERROR"}, {Var: "OUTBOUND_DATA_ERROR"}, {Var: "HIGHEST_SEVERITY"}, {Var: "MULTIPART_STRICT_ERROR"}, {Var: "RESPONSE_ARGS"},
 		{Var: "FILES_COMBINED_SIZE"}, {Var: "REQUEST_BODY_LENGTH"}, {Var: "RESPONSE_CONTENT_LENGTH"}, {Var: "XML"}, {Var: "RESPONSE_CONTENT_TYPE"}, {Var: "URLENCODED_ERROR"}},
 		Op: "unconditionalMatch", Disr: "pass"})
-	add(&Rule{ID: 710, Phase: 2, Targets: []Target{{Var: "ARGS_GET"}}, Op: "rx", Arg: "^secret", Disr: "pass", Acts: []string{"setvar:tx.sawsecret=1"}})
+	add(&Rule{ID: 710, Phase: 2, Targets: []Target{{Var: "ARGS_GET"}}, Op: "rx", Arg: "^secret", Disr: "pass", Acts: []string{"setvar:tx.sawsecret=1", "tag:'reader'"}})
 	// leavers
 	n := rapid.IntRange(2, 6).Draw(t, "nleavers")
 	id := 720
@@ -232,6 +239,17 @@ func c05Mask(path string) bool {
 	return false
 }
 
+// c05WAFMask hides what legitimately differs between two WAFs built from the same configuration:
+// the transaction pool, loggers/writers (open files) and lock state.
+func c05WAFMask(path string) bool {
+	for _, frag := range []string{".txPool", ".memoizerID", ".ownerID", ".Logger", ".auditLogWriter", ".AuditLogWriter", ".ErrorLogCb", ".mu", ".mutex", ".closers"} {
+		if strings.Contains(path, frag) {
+			return true
+		}
+	}
+	return false
+}
+
 // runProbe is runCanonical plus the body readers' contents.
 func runProbe(w coraza.WAF, r *Req) (string, *Failure) {
 	o, f := runCanonical(w, r)
@@ -296,6 +314,11 @@ func checkC05(c *C05Case) Result {
 		}
 		du := deepDump(txU, c05Mask)
 		df := deepDump(txF, c05Mask)
+		// the WAF itself (configuration and compiled rules shared by every transaction) is as it was built
+		if d := diffDumps(deepDump(txF.WAF, c05WAFMask), deepDump(txU.WAF, c05WAFMask)); d != "" {
+			structural = failf("the WAF that served %d transactions differs from a freshly built one (- fresh, + used):\n%s\nconfig:\n%s\npredecessors: %s", len(c.Preds), d, conf, describePreds(c.Preds))
+			return
+		}
 		if d := diffDumps(df, du); d != "" {
 			structural = failf("a recycled transaction object differs from a brand-new one (- new, + recycled):\n%s\nconfig:\n%s\npredecessors: %s", d, conf, describePreds(c.Preds))
 		}
